@@ -4,6 +4,7 @@ from checks import langgen as lg
 from checks import langcommon as lc
 from checks import objgen as og
 from checks import gcgen
+from checks import gengen
 from checks import simcommon as sc
 
 TRUSTED_BASE = [
@@ -71,8 +72,9 @@ def run(chk):
             progs.append(format_prog(rng))
         else:
             progs.append((lg.Gen(rng, nfuncs=rng.randint(0, 3)).program(), None))
-    srcs = [lg.prog_src(*p) for p in progs] + GENERIC_CORPUS
-    sxs = [lg.prog_sx(*p) for p in progs]
+    gens = [gengen.gen(rng) for _ in range(n // 4)]
+    srcs = [lg.prog_src(*p) for p in progs] + [g[0] for g in gens] + GENERIC_CORPUS
+    sxs = [lg.prog_sx(*p) for p in progs] + [lg.prog_sx(g[1], g[2]) for g in gens]
     models = lc.run_model(sxs, fuel=6000)
     fresh = lc.run_impl(srcs)
     multi = lc.run_impl(srcs, opts="shots=%d" % N)
